@@ -159,6 +159,12 @@ def work(job):
                 from lib import gendoc
                 text, sl = gendoc.random_document(rng), []
                 text = ''.join(c for c in text if c >= ' ' or c in '\n\t')
+            if rng.random() < 0.12:
+                # rendering-control metadata with boundary values, and headings for it to act on
+                ctl = rng.choice(['Base Header Level', 'HTML Header Level', 'ODF Header Level', 'LaTeX Header Level', 'Base Header Level'])
+                text = '%s: %s\n' % (ctl, rng.choice(['-3', '-1', '0', '1', '2', '6', '7', '8', '99', '2147483647', 'x', ''])) + ('' if re.match(r'^[A-Za-z0-9][^\n]*:', text) else '\n') + text + \
+                       '\n\n# Head one #\n\ntext\n\n## Head two ##\n\nmore\n\n# Head three #\n'
+                r.stats['header_level_documents'] += 1
             src = text.encode('utf-8')
             ext = rng.choice([D.EXT_CLI, D.EXT_CLI, D.EXT_CLI & ~D.EXT['SMART'], D.EXT_CLI_COMPAT, D.EXT_CLI | D.EXT['COMPLETE'], D.EXT_CLI | D.EXT['CRITIC_ACCEPT'],
                               D.EXT_CLI | D.EXT['CRITIC_REJECT'], D.EXT_CLI | D.EXT['NO_LABELS'], D.EXT_CLI | D.EXT['PROCESS_HTML'], D.EXT_CLI | D.EXT['OBFUSCATE'], D.EXT_CLI & ~D.EXT['NOTES'],
